@@ -38,7 +38,7 @@ fn ledger(len: usize, lazily_created: bool, lost_ok: bool) {
 const S_CHUNK: &[u16] = &[M_CHUNK, M_SINGLE | M_LEN];
 const S_BUF: &[u16] = &[M_BUF, M_SINGLE | M_LEN];
 const S_SKIP: &[u16] = &[M_SKIP, M_PULLS, M_SINGLE | M_LEN];
-const S_SKIP_LONG: &[u16] = &[M_SKIP, M_SINGLE | M_LEN, M_SINGLE, M_SINGLE | M_CHUNK | M_LEN, M_SINGLE | M_LEN];
+const S_SKIP_LONG: &[u16] = &[M_SKIP, M_SINGLE, M_SINGLE, M_SINGLE | M_CHUNK, M_SINGLE | M_LEN];
 const S_LOOPS: &[u16] = &[M_LOOPS];
 const S_END: &[u16] = &[M_SINGLE | M_CHUNK, M_SINGLE | M_CHUNK | M_LEN, M_SINGLE | M_LEN];
 const S_ADAPT: &[u16] = &[M_ADAPT, M_ADAPT | M_LEN];
@@ -297,19 +297,11 @@ fn iter_buf() {
 }
 
 // @verif family=SEQ quick=C06,C09 thorough=C10,C11 timeout=900
-// @bounds kind=ConIterOfIter<usize,Probe> len<=2, all size hints; prefix<=2 next(); skip_to_end; 4 steps of single pulls / len queries / one chunk pull (enough pulls for the reserved counter to come back to the yielded count); end in {drop, into_seq_iter all/partly}
+// @bounds kind=ConIterOfIter<usize,Probe> len<=2, all size hints; prefix<=2 next(); skip_to_end; 3 single pulls; one single/chunk pull; single/len query (enough pulls for the reserved counter to come back to the yielded count); end in {drop, into_seq_iter all/partly}
 #[kani::proof]
 #[kani::unwind(6)]
 fn iter_skip() {
     go_iter(2, 2, S_SKIP_LONG, E_ALL, wit_skip);
-}
-
-// @verif family=SEQ quick=C06,C11 thorough=C10 timeout=900
-// @bounds kind=ConIterOfIter<usize,Probe> len<=3, all size hints; prefix<=3 next(); skip_to_end; any pull (single, chunk n<=len+2, buffered x2); single/len query; end in {drop, into_seq_iter all/partly}
-#[kani::proof]
-#[kani::unwind(7)]
-fn iter_skip_any() {
-    go_iter(3, 3, S_SKIP, E_ALL, wit_skip);
 }
 
 // @verif family=SEQ quick=C12 thorough=C01,C02 timeout=900
